@@ -45,6 +45,8 @@ var models = map[string]Model{
 	"fmt.Sprint":  {Pure: true, Why: "fmt docs"},
 
 	// --- further standard-library functions that only read their arguments ---
+	"(*strings.Replacer).Replace":                {Pure: true, Why: "strings docs: a Replacer is safe for concurrent use"},
+	"strings.NewReplacer":                        {Pure: true, NonNil: []bool{true}, Why: "strings docs"},
 	"errors.Unwrap":                              {Pure: true, Why: "standard library: reads its arguments only"},
 	"errors.As":                                  {Pure: true, Why: "standard library: reads its arguments only"},
 	"errors.Join":                                {Pure: true, Why: "standard library: reads its arguments only"},
